@@ -1149,6 +1149,35 @@ fn gen_key(rng: &mut Rng) -> &'static str {
 // running a case
 // ------------------------------------------------------------------------------------------
 
+/// C17 under a wall clock that steps backwards (implementation only: the model has no clock): the display is
+/// frozen, then the clock is set back below the instant of freezing, and frames are drawn in every view — the
+/// "frozen for n s" arithmetic must not panic.
+fn clock_step_frames(run: &mut Run, ctx: &Ctx) {
+    use Op::Key as K;
+    let mut live = new_live(ctx, &simple_setup(1, 64));
+    let _ = live.exec(&path(0, &[c(0), c(0), c(0)]));
+    crate::clock::enable(50_000_000_000);
+    let mut ops = vec![K("toggle_freeze"), Op::Frame(120, 40)];
+    for back in [1u64, 1_000_000_000, 49_000_000_000] {
+        ops.push(Op::Frame(120, 40));
+        let _ = back;
+    }
+    let mut step = 0;
+    for (i, op) in ops.iter().enumerate() {
+        if i >= 2 {
+            step += 1;
+            crate::clock::set(50_000_000_000u64.saturating_sub([1u64, 1_000_000_000, 49_000_000_000][step - 1]));
+        }
+        let r = if let Op::Frame(w, h) = op { live.frame_rows(*w, *h).map(|_| 0) } else { live.exec(op) };
+        if let Err(p) = r {
+            run.fail("c17-panic", format!("frozen display, wall clock set back by {} ns below the instant of freezing: {} ({p})", if step == 0 { 0 } else { [1u64, 1_000_000_000, 49_000_000_000][step - 1] }, show_op(op)));
+            break;
+        }
+        run.count("c17:clock-step-frames");
+    }
+    crate::clock::disable();
+}
+
 struct Tally {
     sites: std::collections::BTreeMap<String, u32>,
 }
@@ -1745,6 +1774,7 @@ pub fn run(rng: &mut Rng, thorough: bool, corpus: &[String]) -> Run {
     }
     privacy_walk(&mut run, &ctx, rng);
     privacy_sweep(&mut run, &ctx, rng, thorough);
+    clock_step_frames(&mut run, &ctx);
     DNS_STUB.store(false, Ordering::SeqCst);
     let _ = std::fs::remove_file(&db_path);
     run
